@@ -1,0 +1,39 @@
+//go:build verif
+
+// Contracts read by /verif/govc (comment-only; never compiled into the node).
+
+package blockchain
+
+// C16: the per-key leaf-hash cache. An entry is (Blake2b(value), leaf hash); a lookup hits exactly when the key is
+// present and the stored value hash equals Blake2b of the value asked for — the identity of a value is its Blake2b
+// hash and nothing weaker. Blake2b is an uninterpreted function here; that equal digests mean equal values is the
+// usual collision-resistance assumption.
+//@ func (*KeyLevelCache).GetLeafHash
+//@   props C16
+//@   requires c: c != nil
+//@   ensures digest: result1 == hash.Blake2bHash(value)
+//@   ensures hit: result2 == (has(c.entries, key) && c.entries[key].valueHash == hash.Blake2bHash(value))
+//@   ensures value: result2 ==> result0 == c.entries[key].leafHash
+//@   ensures miss: !result2 ==> forall(i, 0, 32, result0[i] == 0)
+
+//@ func (*KeyLevelCache).PutLeafHash
+//@   props C16
+//@   opt inline=1
+//@   requires c: c != nil && c.entries != nil
+//@   ensures stored: has(c.entries, key) && c.entries[key].valueHash == valueHash && c.entries[key].leafHash == leafHash
+//@   assigns everything
+
+//@ func (*KeyLevelCache).Clear
+//@   props C16
+//@   requires c: c != nil
+//@   ensures empty: c.entries != nil && len(c.entries) == 0 && fresh(c.entries)
+//@   assigns c.entries
+
+// a miss computes the leaf hash with the supplied function and stores it under Blake2b(value); a hit returns the entry
+//@ func (*KeyLevelCache).GetOrComputeLeafHash
+//@   props C16
+//@   opt purecalls=1
+//@   requires c: c != nil && c.entries != nil && computeFn != nil
+//@   ensures hit: old(has(c.entries, key) && c.entries[key].valueHash == hash.Blake2bHash(value)) ==> result == old(c.entries[key].leafHash)
+//@   ensures stored: has(c.entries, key) && c.entries[key].valueHash == hash.Blake2bHash(value) && c.entries[key].leafHash == result
+//@   assigns everything
